@@ -37,7 +37,8 @@ MANIFEST = {
 RULE = ("seeded cases of 4-9 operations: prefix_enc/prefix_dec (boundary values, truncation at every offset, trailing "
         "bytes, non-minimal and 10/11-byte varints, version 2, length 256), inbound/message (every supported multihash "
         "code, unsupported codes, CID v0/v1, odd codecs, data sizes 0..1 MiB, tampered payloads, malformed prefixes "
-        "mixed with valid blocks), batches (size vectors around MAX_BATCH_SIZE, sums crossing it, runs of tiny and "
+        "mixed with valid blocks), batches (size vectors around MAX_BATCH_SIZE — in the thorough tier every vector of "
+        "length <= 4 over {0,1,M/2,M/2+1,M-1,M,M+1} —, sums crossing it, runs of tiny and "
         "empty blocks around MAX_BATCH_BLOCKS, the 381301-block witness) run on the real code and on the Lean model; "
         "a case is non-trivial if it has a delivered and a dropped block or a response split into >= 2 messages; "
         "distinct = distinct (ops, observations) transcripts by SHA-256")
@@ -50,7 +51,11 @@ TRUSTED_BASE = ["Lean 4.33 kernel", "axioms: propext, Classical.choice, Quot.sou
                 "(unsigned-varint's u64 decode/encode loops are modelled exactly)"]
 ASSUMPTIONS = ["writes to the substream succeed (send_response aborts the whole response on a write error or timeout)",
                "Code::try_from(c) followed by .code() returns c (multihash-derive)",
-               "usize is 64 bits; sums of block sizes do not overflow"]
+               "usize is 64 bits; sums of block sizes do not overflow",
+               "oracle: the node's hash set is within {sha1, sha2, sha3, keccak, blake2b, blake2s, md5}; a block delivered "
+               "under any other multihash code cannot be re-hashed by the oracle and is reported",
+               "oracle: a block 'fits a message' iff its data is at most 2 MiB (MAX_BATCH_SIZE); the message limit is the "
+               "protocol's 4 MiB; both are fixed in the oracle, not read from the repository"]
 KEEP_PREFIX = 0
 
 MSG_LIMIT = 4 * 1024 * 1024       # bitswap 1.2.0: maximum message size
@@ -393,7 +398,24 @@ BAD_PREFIX_KINDS = ["0 85 18 32", "0 112 18 20", "0 112 19 32", "1 85 18 65", "2
 M = BATCH_LIMIT
 
 
+def repo_cap():
+    """MAX_BATCH_BLOCKS as it stands in the repository now (search tier only: when the proof about the
+    constants no longer checks, look for a failing response at the boundaries of the CURRENT values)."""
+    try:
+        import extract_consts
+        return int(extract_consts.extract()[0].get("MAX_BATCH_BLOCKS", CAP))
+    except Exception:  # noqa
+        return CAP
+
+
 def op_batches(rng, tier):
+    if tier == "search" and rng.random() < 0.3:
+        cap = max(1, min(repo_cap(), 1 << 21))
+        size = rng.choice([M // cap, max(M // cap, 1) - 1, 1, 0, 16])
+        n = min(rng.choice([cap, cap + 1, 2 * cap]), 1 << 21)
+        while size * n > 100 * (1 << 20):
+            n //= 2
+        return [f"batches {rng.choice(PREFIX_KINDS[4:5] + PREFIX_KINDS[:2])} {size}*{n}"]
     kind = rng.choice(PREFIX_KINDS) if rng.random() < 0.93 else rng.choice(BAD_PREFIX_KINDS)
     r = rng.random()
     if r < 0.45:
@@ -437,8 +459,21 @@ def gen_case(rng, tier):
     return ops
 
 
+def exhaustive_vectors(maxlen):
+    """Every size vector of length <= maxlen over the boundary pool (thorough tier)."""
+    import itertools
+    pool = [0, 1, M // 2, M // 2 + 1, M - 1, M, M + 1]
+    ops = []
+    for k in range(1, maxlen + 1):
+        for vec in itertools.product(pool, repeat=k):
+            ops.append("batches 1 85 18 32 " + ",".join(map(str, vec)))
+    return [ops[i:i + 8] for i in range(0, len(ops), 8)]
+
+
 def gen_cases(rng, tier):
     n = {"quick": 700, "thorough": 25000, "search": 2500}[tier]
+    if tier == "thorough":
+        yield from exhaustive_vectors(4)
     for _ in range(n):
         yield gen_case(rng, tier)
 
